@@ -375,6 +375,8 @@ K_READ_IO = dict(name="K-core::ctl_io", package="rustzx-core", features="full",
 
 K_TRAP = dict(name="K-core::trap", package="rustzx-core", features="full", harnesses=["pc_callback_trap"],
               functions={"pc_callback_trap": ["ZXController::pc_callback"]}, assumptions=CORE_ASSUME)
+K_BREAK = dict(name="K-core::breakpoint", package="rustzx-core", features="full", harnesses=["pc_callback_breakpoint"],
+               functions={"pc_callback_breakpoint": ["ZXController::pc_callback (debug interface arm)"]}, assumptions=CORE_ASSUME)
 K_ROM = dict(name="K-core::rom", package="rustzx-core", features="full", harnesses=["page_slices"], jobs=1,
              functions={"page_slices": ["ZXMemory::ram_page_data", "ZXMemory::ram_page_data_mut", "ZXMemory::rom_page_data_mut"]},
              assumptions=CORE_ASSUME + ["ROM *contents*: load_default_rom / load_rom_binary_16k_pages copy whole pages into rom_page_data_mut(page) (one copy_from_slice / read_exact per page, read from source); a Kani harness comparing against the embedded images crashed CBMC (status 139) and was dropped"])
@@ -434,9 +436,11 @@ K_AYM_FLOAT = dict(name="K-aym::resampler", package="aym", tier="thorough", harn
                    assumptions=["one process() call from a freshly constructed chip with symbolic phase in [0,1) and symbolic sample rate 8-384 kHz (interpolator history zero): establishes the phase invariant, not amplitude bounds over time"])
 
 K_AUDIO = dict(name="K-core::audio", package="rustzx-core", features="full",
-               harnesses=["beeper_levels"],
-               functions={"beeper_levels": ["ZXBeeper::change_state", "ZXBeeper::gen_sample"]},
-               assumptions=CORE_ASSUME)
+               harnesses=["beeper_levels", "mixer_sample_composition"],
+               functions={"beeper_levels": ["ZXBeeper::change_state", "ZXBeeper::gen_sample"],
+                          "mixer_sample_composition": ["ZXMixer::gen_sample", "SoundSample::mix / mul_eq / into_f32"]},
+               bounded={"mixer_sample_composition": "master volume in {0, 0.25, 0.5, 1}, stubbed AY sample levels in {0, 0.125, 1.5, 3} per channel (symbolic float products did not finish); every source on/off and speaker/MIC combination"},
+               assumptions=CORE_ASSUME + ["mixer_sample_composition stubs ZXAyChip::gen_sample (the AY sample value is C18's float path)"])
 K_AUDIO_SLOW = dict(name="K-core::audio-float", package="rustzx-core", features="full", tier="thorough",
                     harnesses=["sample_count", "frame_position"], jobs=2, timeout=3000,
                     functions={"sample_count": ["ZXMixer::sample_count_for_frame_fraction", "ZXMixer::samples_per_frame"],
@@ -622,7 +626,7 @@ PROPS = {
         note="Bit-identical repeat runs follow from every function being a function of its inputs (safe Rust + the nondeterminism scan) - assumed as Rust semantics, not proved. Z80::emulate and fast_load_tap enter as uninterpreted functions of the machine state (what they compute is C01-C03/C10). Not covered: gzip-wrapped assets (flate2), audio sample values with sound on/off (no audio is delivered when sound is off), host inputs applied mid-frame.",
         verus=["ctl", "hostio", "mixer"],
         scans=[scan_passed_frames, scan_nondeterminism, scan_sound_flows],
-        kani=[],
+        kani=[K_BREAK],
         explanation="slicing independence = emulate_frames is an iterate of one step function (unary functional contract) + composition lemma",
         technique="contract-based deductive verification: Verus contracts on the real emulate_frames/controller/host-io code + composition lemma; syntactic frame scans",
     ),
